@@ -147,16 +147,19 @@ def wTask : WPh → List Nat | .running t => [t] | _ => []
 def dTask : Disp → List Nat | .holding t | .failed t | .running t => [t] | _ => []
 def gTask : GoPh → List Nat | .failed t | .enq t => [t]
 
+def dRun : Disp → List Nat | .running t => [t] | _ => []
+def dPend : Disp → List Nat | .holding t | .failed t => [t] | _ => []
+
 /-- tasks inside `f()` right now -/
-def runningTasks (s : St) : List Nat :=
-  s.workers.flatMap wTask ++ (match s.disp with | .running t => [t] | _ => [])
+def runningTasks (s : St) : List Nat := s.workers.flatMap wTask ++ dRun s.disp
 
 /-- tasks the pool holds without running them: in a `Go` call in flight, in the queue, or in the
     dispatcher's hands -/
-def pendingTasks (s : St) : List Nat :=
-  s.goers.flatMap gTask ++ s.queue ++ (match s.disp with | .holding t | .failed t => [t] | _ => [])
+def pendingTasks (s : St) : List Nat := s.goers.flatMap gTask ++ s.queue ++ dPend s.disp
 
 /-- nothing in the pool: no worker goroutine, empty queue, no `Go` in flight, dispatcher blocked in its select -/
 def idle (s : St) : Prop := s.workers = [] ∧ s.queue = [] ∧ s.goers = [] ∧ s.disp = .idle
+
+instance (s : St) : Decidable (idle s) := by unfold idle; infer_instance
 
 end TPool
